@@ -136,6 +136,12 @@ func c05(c *Ctx) (*report.Result, error) {
 	if g := resolve(c, res, "O5.4", anchor{"proxy", "*proxyIDRingBuffer", "AggregateUpTo"}); g != nil {
 		checkAggregateMax(c, res, g, "O5.4")
 	}
+	res.RuleDoc["O5.6"] = "growth grows: the slice ensureCapacity allocates has length 2*len(entries), or a positive constant only where that is 0"
+	checkRingGrowthGrows(c, res, "O5.6")
+	res.RuleDoc["O5.7"] = "startProxyID is the head entry's proxy id: Append sets it to the appended id exactly when the buffer is empty (one store, under size == 0, passed on every empty-side path) - Discard's advance is O5.3"
+	checkRingStartID(c, res, "O5.7")
+	res.RuleDoc["O5.8"] = "AggregateUpTo returns an empty aggregation only when the buffer is empty, the watermark lies below the head entry's id, or the derived count is not positive"
+	checkAggregateEarlyReturns(c, res, "O5.8")
 	res.RuleDoc["O5.3"] = "Discard advances head, size and startProxyID by one and the same clamped count; AggregateUpTo clamps its count to size and writes no field of the buffer"
 	res.Floors["O5.1"] = 3
 
